@@ -468,6 +468,8 @@ def collect_source(facts, body, it, t):
     v = drop_lv(t)
     if is_call(v, 'collect') and v[2]:
         return v[2][0]
+    if is_call(v, 'from_iter') and len(v[2]) == 1 and (cinfo(v[1])['trait'] or '').endswith('FromIterator') and not cinfo(v[1])['local']:
+        return v[2][0]      # `C::from_iter(xs)` is `xs.into_iter().collect::<C>()`
     lc = loop_collected(facts, body, it, t)
     if lc is None or len(lc[1]) != 1:
         return None
@@ -510,17 +512,65 @@ def loop_of_item(it, t):
 def adds_every(facts, body, it, dst, src_param, src_path):
     """Every element of <src_param>.<src_path> is added to self.<dst> on every path through the function:
     a single extend/append of the whole source, or a complete loop over it whose every iteration inserts the item
-    (directly or through a helper whose effect is an insert into self.<dst>)."""
+    (directly or through a helper whose effect is an insert into self.<dst>).
+    Shortcuts for the trivial cases are fine: nothing at all when the source is empty, and taking the source over as it is
+    (`self.dst = other.src`) when the destination is empty."""
+    ok, site = _adds_every(facts, body, it, dst, src_param, src_path, Reach(facts, body, Evaluator(facts)))
+    if ok:
+        return ok, site
+    from .common import emptiness_atom
+    specs = {'src_empty': (src_param, tuple(src_path)), 'dst_empty': (1, tuple(dst))}
+    atom = emptiness_atom(specs)
+    ev = Evaluator(facts, bool_atom=atom, assumption={'src_empty': False, 'dst_empty': False})
+    ok, site = _adds_every(facts, body, it, dst, src_param, src_path, Reach(facts, body, ev))
+    if not ok or not ev.hits:
+        return False, None
+    # source empty: the paths that skip the adding must leave self untouched
+    rcs = Reach(facts, body, Evaluator(facts, bool_atom=atom, assumption={'src_empty': True}))
+    skipping = rcs._reach(0, {site})
+    for (bb, _i), w in list(it.muts.items()) + list(it.writes.items()):
+        tgt = loc_target(it, w.loc) if w.loc[0][0] in ('P', 'O') else None
+        if bb in skipping and tgt is not None and tgt[0] == 1 and any(body.blocks[b]['term']['k'] == 'return' for b in rcs._reach(bb, {site})):
+            return False, None
+    # destination empty (source not): every path adds every element, or takes the whole source over
+    rcd = Reach(facts, body, Evaluator(facts, bool_atom=atom, assumption={'src_empty': False, 'dst_empty': True}))
+    takes = [w.bb for w in it.writes.values() if loc_target(it, w.loc) and loc_target(it, w.loc)[:3] == (1, tuple(dst), 'w')
+             and param_path(versionless(w.val)) == (src_param, tuple(src_path))]
+    if not rcd.must_pass([site] + takes):
+        return False, None
+    return True, site
+
+
+def _walks_field(facts, body, param):
+    """The field path a crate-local `impl IntoIterator for T` walks when a parameter of type T is iterated as a whole
+    (`for x in other` with `fn into_iter(self) { self.value.into_iter() }`), or None."""
+    ty = body.locals[param]['ty'] if param < len(body.locals) else {}
+    while ty.get('k') == 'ref':
+        ty = ty.get('ty') or {}
+    if ty.get('k') != 'adt' or not str(ty.get('path', '')).startswith('crdts::'):
+        return None
+    for b in facts.bodies:
+        if b.name == 'into_iter' and (b.impl_trait or '').endswith('IntoIterator') and b.impl_self == ty['path'] and not b.derived:
+            r = interp(facts, b).ret
+            base, kind, clo = iter_source(r)
+            pp = param_path(base)
+            if pp and pp[0] == 1 and not clo and not (set(iter_adaptors(r)) & LOSSY_ADAPTORS) and kind == 'items':
+                return tuple(pp[1])
+    return None
+
+
+def _adds_every(facts, body, it, dst, src_param, src_path, rc):
     from ..summaries import call_effects
-    rc = Reach(facts, body, Evaluator(facts))
+    whole_alias = _walks_field(facts, body, src_param) == tuple(src_path)
     for bb, c in sorted(it.calls.items()):
         if call_name(c.term) in ('extend', 'append') and len(c.args) == 2 and param_path(versionless(c.args[0].val)) == (1, tuple(dst)):
             src = c.args[1].val
             base, kind, clo = iter_source(src)
-            if param_path(base) == (src_param, tuple(src_path)) and not clo and not (set(iter_adaptors(src)) & LOSSY_ADAPTORS) and rc.must_pass([bb]):
+            if (param_path(base) == (src_param, tuple(src_path)) or (whole_alias and param_path(base) == (src_param, ()))) \
+                    and not clo and not (set(iter_adaptors(src)) & LOSSY_ADAPTORS) and rc.must_pass([bb]):
                 return True, bb
     for lp in loops_of(it):
-        if not lp.whole_over(src_param, tuple(src_path)) or lp.early_exits() or lp.source()[2]:
+        if not (lp.whole_over(src_param, tuple(src_path)) or (whole_alias and lp.whole_over(src_param, ()))) or lp.early_exits() or lp.source()[2]:
             continue
         sites = []
         for bb in sorted(lp.blocks):
